@@ -42,7 +42,7 @@ func init() {
 		Directed:   c17Directed,
 		Run:        c17Run,
 		MustHit:    []string{"strategy=random-walk", "strategy=pct", "strategy=round-robin-fine", "preemption", "two_first_signers", "op=Metadata", "op=RetrieveAssertionInfo", "second_instance", "non_default_algorithm"},
-		RandomRuns: map[string]int{"quick": 220, "thorough": 12000},
+		RandomRuns: map[string]int{"quick": 600, "thorough": 12000},
 		Assumptions: []string{"data-race freedom is shown for the executed schedules of the generated workloads",
 			"channels, sync.Cond and WaitGroup.Wait inside the library are not modelled (a watchdog turns a task that never yields into a harness error)",
 			"the certificate getters return the configured slice itself, which is configuration, not a result (not scribbled)"},
